@@ -224,7 +224,9 @@ class Term:
         self.components = []
         for component in components:
             if component not in self.components:
-                self.components.append(component)
+                # Components are copied so they're never shared with the terms they come from,
+                # which may need them with a different encoding.
+                self.components.append(deepcopy(component))
         self.data = None
         self.kind = None
         self.name = ":".join([str(component.name) for component in self.components])
@@ -615,8 +617,10 @@ class GroupSpecificTerm:
     """
 
     def __init__(self, expr, factor):
-        self.expr = expr
-        self.factor = factor
+        # Both sides are copied so they're never shared with other group-specific terms, for
+        # example '(x|g + h)' creates 'x|g' and 'x|h' where 'x' may need different encodings.
+        self.expr = deepcopy(expr)
+        self.factor = deepcopy(factor)
         self.data = None
         self.groups = None
         self.kind = None
